@@ -32,6 +32,12 @@ FIELD_GRAMMAR = {
     "<f>": ["<c><f>", ""],
     "<c>": ["a", "b", "0", " ", "\x00"],
 }
+# same nonterminal names, different rules: results for one grammar must not leak into the other
+FIELD_GRAMMAR_LEFT = {
+    "<start>": ["<f>"],
+    "<f>": ["<f><c>", ""],
+    "<c>": ["a", "b", "0", " ", "\x00"],
+}
 COUNT_GRAMMAR = {
     "<start>": ["<l>"],
     "<l>": ["<i>", "<i>,<l>"],
@@ -40,10 +46,12 @@ COUNT_GRAMMAR = {
 }
 
 
-def field_tree(s: str, ids) -> T.PT:
+def field_tree(s: str, ids, left: bool = False) -> T.PT:
     def f(rest):
         if not rest:
             return (ids(), "<f>", [])
+        if left:
+            return (ids(), "<f>", [f(rest[:-1]), (ids(), "<c>", [(ids(), rest[-1], [])])])
         return (ids(), "<f>", [(ids(), "<c>", [(ids(), rest[0], [])]), f(rest[1:])])
 
     return f(s)
@@ -227,7 +235,7 @@ def check_just(ctx: Ctx, n: int):
     import grammar_graph.gg as gg
 
     rng = ctx.rng
-    graph = gg.GrammarGraph.from_grammar(FIELD_GRAMMAR)
+    graphs = {False: gg.GrammarGraph.from_grammar(FIELD_GRAMMAR), True: gg.GrammarGraph.from_grammar(FIELD_GRAMMAR_LEFT)}
     preds = {
         "crop": (ip.CROP_PREDICATE, None, None),
         "ljust": (ip.LJUST_PREDICATE, True, False),
@@ -249,12 +257,15 @@ def check_just(ctx: Ctx, n: int):
             s = "".join(rng.choice("ab0 \x00") for _ in range(ln))
             fill = rng.choice(["a", "0", " ", "\x00"])
         w = rng.choice([len(s), len(s), max(0, len(s) - 1), len(s) + 1, rng.randint(0, 12)])
-        t = field_tree(s, T.IdGen())
+        left = rng.random() < 0.4
+        graph = graphs[left]
+        t = field_tree(s, T.IdGen(), left)
         dt = T.to_isla(t)
         wt = DerivationTree(str(w), ())
         ctx.evaluations += 1
         ctx.nontriv((name, s, w, fill))
-        replay = {"predicate": name, "argument": s, "width": w, "fill": fill}
+        replay = {"predicate": name, "argument": s, "width": w, "fill": fill, "grammar": "left-recursive" if left else "right-recursive"}
+        ctx.count("field_grammar", replay["grammar"])
         try:
             if name == "crop":
                 r = res_of(pred.evaluate(graph, dt, wt))
@@ -269,10 +280,10 @@ def check_just(ctx: Ctx, n: int):
             r = ("raises", type(e).__name__)
             reqs.append([Atom("ping")])
         replay["isla"] = repr(r)[:200]
-        meta.append((name, s, w, r, replay))
+        meta.append((name, s, w, r, replay, left))
         ctx.count("just_crop", name + ":" + r[0])
         ctx.count("len_vs_width", "equal" if len(s) == w else ("shorter" if len(s) < w else "longer"))
-    for (name, s, w, r, replay), a in zip(meta, drive(reqs)):
+    for (name, s, w, r, replay, left), a in zip(meta, drive(reqs)):
         rel = "equal" if len(s) == w else ("shorter" if len(s) < w else "longer")
         if r[0] == "raises":
             ctx.violation(f"{name}:raises:{r[1]}:{rel}", f"{name}({s!r}, {w}) raised {r[1]}", replay)
@@ -288,7 +299,7 @@ def check_just(ctx: Ctx, n: int):
             tree = list(r[1].values())[0]
             if str(tree) != want:
                 ctx.violation(f"{name}:replacement:{rel}", f"{name}({s!r}, {w}) proposes {str(tree)!r}, model {want!r} (width {w})", replay)
-            certify_tree(ctx, FIELD_GRAMMAR, "<f>", tree, name, replay)
+            certify_tree(ctx, FIELD_GRAMMAR_LEFT if left else FIELD_GRAMMAR, "<f>", tree, name, replay)
     ctx.sample({"predicate": "just/crop family", "calls": n})
 
 
